@@ -197,6 +197,22 @@ CHECKS = {
              'runtime_error and the recorded parent must be what the model prescribes.',
         design='3/C10',
         note=BASE_TRUST + 'Trusted base as C01; check_bindings of the mock ports mirrors the Dezyne one (every in and out event).'),
+    'C06': dict(
+        category='translation_validation',
+        technique='include-graph model (IncludeGraph.tla, facts extracted from the returned files) enumerates every translation '
+                  'unit over the returned headers and predicts the verdict; each is given to g++ (thorough: and clang++), '
+                  'plus a separate-translation-unit link+run and all prefix pairs; the compiler is the judge',
+        text='For special models (global-namespace component, empty interface, no ports) and random models incl. multi-client, '
+             'the returned files are written out verbatim and every inclusion sequence of length 1..2/3 (order and '
+             'multiplicity) plus the source file is compiled; quoted includes must be closed over the returned files; the '
+             'shell is linked from another translation unit with a user of every member and constructed; support headers of '
+             '5 prefixes are compiled pairwise together. Rejections are matched against the four listed known findings '
+             '(F no include guards, J ILog lacks <stdexcept>, G unnamed namespace for a global encapsulee, K file-name '
+             'collision); anything else is a violation.',
+        design='3/C06',
+        note='Trusted: the mock Dezyne runtime headers (mirroring the standard headers the real ones include), the mock model '
+             'header, g++ 12/clang++ 14 (-std=c++17, errors only). TLA+ supplies the scenario space and a prediction; whether a '
+             'text is valid C++ is decided by the compilers.'),
 }
 
 NOT_YET = {}
